@@ -225,9 +225,31 @@ def section_offsets(p):
 
 # ---------------------------------------------------------------- expected names
 
+class _Tables:
+    """The value tables the expectations are computed from: the frozen copy of the published tables (mc/ref/pel_tables_frozen)
+    for every key it holds, the repository's table only for keys added since.  An oracle that read the repository's own table
+    would vouch for any slip made in it."""
+
+    def __getattr__(self, name):
+        from pel.peltool import pel_values
+        from mc.ref import pel_tables_frozen as frozen
+        impl = getattr(pel_values, name)
+        if isinstance(impl, dict) and hasattr(frozen, name):
+            merged = dict(impl)
+            merged.update(getattr(frozen, name))
+            # keep the repository's iteration order for keys both have, frozen-only keys at the end
+            ordered = {k: merged[k] for k in getattr(frozen, name)}
+            for k in impl:
+                ordered.setdefault(k, merged[k])
+            return ordered
+        return impl
+
+
+_TABLES = _Tables()
+
+
 def tables():
-    from pel.peltool import pel_values
-    return pel_values
+    return _TABLES
 
 
 def section_name(s):
